@@ -128,7 +128,8 @@ func newSession(user, password, key string, rcvTimeout time.Duration, bufBlocks 
 		}
 	}()
 	cl, err := rscp.NewClient(rscp.ClientConfig{Address: "127.0.0.1", Port: 1, Username: user, Password: password, Key: key,
-		ConnectionTimeout: 300 * time.Millisecond, SendTimeout: 300 * time.Millisecond, ReceiveTimeout: rcvTimeout, ReceiveBufferBlockSize: bufBlocks})
+		ConnectionTimeout: 300 * time.Millisecond, SendTimeout: 300 * time.Millisecond, ReceiveTimeout: rcvTimeout, ReceiveBufferBlockSize: bufBlocks,
+		HeartbeatInterval: time.Second + 1})
 	if err != nil {
 		return nil, err
 	}
@@ -352,9 +353,24 @@ func init() {
 			var ops, res []string
 			prop := "pass"
 			brokenBefore := false // the previous call failed with a transport/protocol error, or was a disconnect
+			idleSession := i%50 == 7 // one session in fifty idles longer than the (smallest possible) heartbeat interval once
 			for k := 0; k < depth; k++ {
 				c := g.call(k)
+				if idleSession && k == 2 {
+					// on an established connection: idle, then the peer takes the request and closes before answering
+					if conn, authed := s.cl.VerifState(); conn && authed && c.kind != "D" && rscp.VerifValidateRequests(c.reqs) == nil {
+						c.dialOk, c.writeOk = true, true
+						c.user = replySpec{behaviour{kind: "closeBefore"}, "X"}
+						time.Sleep(1100 * time.Millisecond)
+					}
+				}
 				r := s.call(c)
+				// every request reaches the peer at most once
+				if c.kind != "D" {
+					if n := strings.Count(r, "sent "); n > 2 || (n == 2 && !strings.Contains(r, fmt.Sprintf("[ M %d ", s.authTag))) {
+						prop = "FAIL C08 a request reached the peer more than once in one call: " + trunc(r, 160)
+					}
+				}
 				healthy := c.kind != "D" && c.dialOk && c.writeOk && c.auth.beh.kind == "ok" && strings.HasPrefix(c.auth.model, "F [ M 8388609 3 n u8 10") &&
 					c.user.beh.kind == "ok" && rscp.VerifValidateRequests(c.reqs) == nil
 				if brokenBefore && healthy && !strings.HasPrefix(r, "ok ") && prop == "pass" {
